@@ -6,34 +6,53 @@
 (* generated again as the first member then); COUNT is decremented by what  *)
 (* was cached.  The filler here is ideal: the recurrence set is 1..N and    *)
 (* Fill(seed, n) returns its next n members from seed on.                    *)
-EXTENDS Integers, Sequences
-CONSTANTS C, N, Counts        \* cache size, size of the set, the COUNT values tried (-1 = none)
-VARIABLES seed, count, cch, rdi, popped, lastpeek, ended
-vars == <<seed, count, cch, rdi, popped, lastpeek, ended>>
-Min(a, b) == IF a < b THEN a ELSE b
-Fill(s, n) == [i \in 1..(IF s > N THEN 0 ELSE Min(n, N - s + 1)) |-> s + i - 1]
+(* What the filler delivers is then corrected (zone offset differences,     *)
+(* scale conversion; in the code also business-day shifts collapse dates):  *)
+(* corr maps filler instant i to the instant that is cached.  corr need not *)
+(* be injective or monotone (wall-clock gap of a zone transition), so the   *)
+(* cache load is sorted and only instants strictly after the latest cached  *)
+(* one (lst) are kept; a cache load that is dropped entirely is refilled.   *)
+EXTENDS Integers, Sequences, SequencesExt, FiniteSets
+CONSTANTS C, N, Counts,       \* cache size, size of the set, the COUNT values tried (-1 = none)
+          Corrs                \* the correction maps tried, each in [1..N -> Nat \ {0}]
+VARIABLES seed, count, cch, rdi, popped, lastpeek, ended, corr, lst
+vars == <<seed, count, cch, rdi, popped, lastpeek, ended, corr, lst>>
+Min2(a, b) == IF a < b THEN a ELSE b
+Fill(s, n) == [i \in 1..(IF s > N THEN 0 ELSE Min2(n, N - s + 1)) |-> s + i - 1]
 Init == seed = 1 /\ count \in Counts /\ cch = <<>> /\ rdi = 0 /\ popped = <<>> /\ lastpeek = 0 /\ ended = FALSE
+        /\ corr \in Corrs /\ lst = 0
+(* strictly-after filter over a sorted cache load: returns <<kept, new lst>> *)
+RECURSIVE After(_, _, _)
+After(sq, l, acc) == IF sq = <<>> THEN <<acc, l>>
+                     ELSE IF Head(sq) > l THEN After(Tail(sq), Head(sq), Append(acc, Head(sq))) ELSE After(Tail(sq), l, acc)
 (* refill(): returns the new state, or "empty" when the stream is over *)
-Refill ==
-  IF seed = 0 \/ count = 0 THEN [ok |-> FALSE, seed |-> seed, count |-> count, cch |-> cch]
-  ELSE LET nti == IF count >= 0 /\ count < C THEN count ELSE C
-           got == Fill(seed, nti)
+RECURSIVE RefillFrom(_, _, _)
+RefillFrom(sd, cn, l) ==
+  IF sd = 0 \/ cn = 0 THEN [ok |-> FALSE, seed |-> sd, count |-> cn, cch |-> <<>>, lst |-> l]
+  ELSE LET nti == IF cn >= 0 /\ cn < C THEN cn ELSE C
+           got == Fill(sd, nti)
            full == Len(got) >= C
            keep == IF full THEN SubSeq(got, 1, C - 1) ELSE got
-           cnt2 == IF count < 0 THEN count ELSE IF Len(keep) < count THEN count - Len(keep) ELSE 0
-       IN [ok |-> Len(keep) > 0, seed |-> IF full THEN got[C] ELSE 0, count |-> cnt2, cch |-> keep]
+           cnt2 == IF cn < 0 THEN cn ELSE IF Len(keep) < cn THEN cn - Len(keep) ELSE 0
+           sd2 == IF full THEN got[C] ELSE 0
+           srt == SortSeq([i \in 1..Len(keep) |-> corr[keep[i]]], <)
+           flt == After(srt, l, <<>>)
+       IN IF Len(keep) = 0 THEN [ok |-> FALSE, seed |-> sd2, count |-> cnt2, cch |-> <<>>, lst |-> l]
+          ELSE IF Len(flt[1]) = 0 THEN RefillFrom(sd2, cnt2, l)        \* goto again
+          ELSE [ok |-> TRUE, seed |-> sd2, count |-> cnt2, cch |-> flt[1], lst |-> flt[2]]
+Refill == RefillFrom(seed, count, lst)
 Next_(popp) ==
   IF rdi >= Len(cch)
   THEN LET r == Refill IN
        IF ~r.ok THEN /\ seed' = r.seed /\ count' = r.count /\ cch' = <<>> /\ rdi' = 0 /\ ended' = TRUE
-                      /\ lastpeek' = 0 /\ popped' = popped
+                      /\ lastpeek' = 0 /\ popped' = popped /\ lst' = r.lst /\ corr' = corr
        ELSE /\ seed' = r.seed /\ count' = r.count /\ cch' = r.cch /\ rdi' = (IF popp THEN 1 ELSE 0)
             /\ popped' = (IF popp THEN Append(popped, r.cch[1]) ELSE popped)
-            /\ lastpeek' = (IF popp THEN 0 ELSE r.cch[1]) /\ ended' = ended
+            /\ lastpeek' = (IF popp THEN 0 ELSE r.cch[1]) /\ ended' = ended /\ lst' = r.lst /\ corr' = corr
   ELSE /\ popped' = (IF popp THEN Append(popped, cch[rdi + 1]) ELSE popped)
        /\ rdi' = (IF popp THEN rdi + 1 ELSE rdi)
        /\ lastpeek' = (IF popp THEN 0 ELSE cch[rdi + 1])
-       /\ UNCHANGED <<seed, count, cch, ended>>
+       /\ UNCHANGED <<seed, count, cch, ended, corr, lst>>
 Peek == ~ended /\ lastpeek = 0 /\ Next_(FALSE)
 Pop == ~ended /\ Next_(TRUE)
 Next == Peek \/ Pop
@@ -43,4 +62,8 @@ Limit == IF count < 0 THEN N ELSE N   \* placeholder for readability
 PrefixOfSet == \A i \in 1..Len(popped) : popped[i] = i
 (* ... a peek announces the next pop ... *)
 PeekIsNextPop == lastpeek # 0 => lastpeek = Len(popped) + 1
+(* under an arbitrary correction: strictly increasing, only corrected members of the set, and a peek is still the next pop *)
+StrictlyIncreasing == \A i \in 1..(Len(popped) - 1) : popped[i] < popped[i + 1]
+OnlyCorrected == \A i \in 1..Len(popped) : \E j \in 1..N : corr[j] = popped[i]
+PeekAfterPopped == lastpeek # 0 /\ popped # <<>> => lastpeek > popped[Len(popped)]
 =============================================================================
